@@ -595,7 +595,48 @@ def rule_r7(ck, prog, cls='sdk::trace::SpanData', base='sdk::trace::Recordable',
     return cnt
 
 
+def rule_r8(ck, prog, rule='C04.R8'):
+    """attributes / links / event attributes supplied as iterables are all copied: no copy callback asks the iteration to stop"""
+    from .common import callbacks_never_stop
+    hosts = [f for f in prog.funcs.values() if (f.cls or '').startswith(('opentelemetry::sdk::trace::', 'opentelemetry::sdk::common::AttributeMap')) or
+             (f.d.get('lambda') and (f.d.get('parent') or '').startswith(('opentelemetry::sdk::trace::', 'opentelemetry::sdk::common::AttributeMap')))]
+    n = callbacks_never_stop(ck, prog, rule, hosts, exempt=('EqualTo',))
+    if n < 3:
+        raise AnalysisBroken('fewer than 3 ForEachKeyValue copy callbacks found in the span / attribute-map code (%d)' % n)
+
+
+def rule_r9(ck, prog, rule='C04.R9'):
+    """clock agreement: a SteadyTimestamp is only ever built from steady_clock::now(), a SystemTimestamp from system_clock::now() -
+    the duration is the difference of two steady readings, which is garbage when one of them comes from the other clock"""
+    cnt = 0
+    for f in sorted(prog.funcs.values(), key=lambda x: x.key):
+        if not f.qn.startswith(('opentelemetry::sdk::trace::', '(anonymous namespace)::', 'opentelemetry::sdk::logs::')) and '/sdk/src/trace/' not in (f.d.get('file') or ''):
+            continue
+        for n in f.nodes:
+            if n['k'] != 'construct':
+                continue
+            c = strip_targs(n.get('c', ''))
+            want = 'steady_clock' if c.endswith('common::SteadyTimestamp::SteadyTimestamp') else ('system_clock' if c.endswith('common::SystemTimestamp::SystemTimestamp') else None)
+            if want is None or not n.get('args'):
+                continue
+            nows = [strip_targs(f.nodes[j].get('c', '')) for a in n['args'] if a is not None and a >= 0 for j in f.subtree(a)
+                    if f.nodes[j]['k'] == 'call' and strip_targs(f.nodes[j].get('c', '')).endswith('::now')]
+            if not nows:
+                continue
+            cnt += 1
+            ok = all(want in x for x in nows)
+            ck.verdict(ok, rule, f, '%s-from-%s@%s' % ('steady' if want == 'steady_clock' else 'system', want, f.name), n,
+                       'built from %s::now()' % want if ok else
+                       'a %s is built from %s: start and end of a span are then read from different clocks whenever only one of them is supplied by the caller, the exported duration is garbage' %
+                       ('SteadyTimestamp' if want == 'steady_clock' else 'SystemTimestamp', nows[0]))
+    if cnt < 2:
+        raise AnalysisBroken('fewer than 2 timestamp constructions from a clock reading found (%d)' % cnt)
+
+
 def run(ck, prog):
+    ck.doc('C04.R8', 'attribute / link copy callbacks handed to ForEachKeyValue never ask to stop', 3)
+    ck.doc('C04.R9', 'clock agreement: SteadyTimestamp from steady_clock, SystemTimestamp from system_clock', 2)
+    ck.doc('C08.R7', '(shared rule, see C08) no member of AttributeMap stores with a non-overwriting call (event / link attribute lists are last-write-wins)', 1)
     ck.doc('C04.R1', 'Span mutators: recordable only touched under the span mutex; dereferences behind the non-null edge', 16)
     ck.doc('C04.R2', 'Span::End typestate: ended flag, single OnEnd with the moved recordable, recordable reset afterwards', 6)
     ck.doc('C04.R3', 'every virtual of sdk::trace::Recordable is overridden by every concrete recordable', 2)
@@ -625,4 +666,8 @@ def run(ck, prog):
     rule_r7(ck, prog)
     from . import c13
     c13.rule_r7_simple(ck, prog, cls='sdk::trace::SimpleSpanProcessor', method='OnEnd')
+    rule_r8(ck, prog)
+    rule_r9(ck, prog)
+    from . import c08
+    c08.rule_r7_bulk(ck, prog, classes=('sdk::common::AttributeMap',))
     return {}
